@@ -7,8 +7,8 @@
 enum { L_REIM, L_CPLX };
 enum { I_NATIVE, I_GENERIC, I_REF_DIRECT, I_AVX_DIRECT, I_BFS_REF, I_REC_REF, I_LEAF_REF, I_LEAF_AVX, N_IMPL };
 static const char* impl_name[] = {"dispatch-native", "dispatch-generic", "ref-direct", "avx2-direct", "bfs16-ref", "rec16-ref", "leaf-ref", "leaf-avx"};
-enum { X_RANDOM, X_IMPULSE, X_CONSTANT, X_RESONANT, X_DYNRANGE, X_INTEGER, N_XFAM };
-static const char* xfam_name[] = {"random", "impulse", "constant", "resonant", "dynrange", "integer50"};
+enum { X_RANDOM, X_IMPULSE, X_CONSTANT, X_RESONANT, X_DYNRANGE, X_INTEGER, X_TINY, X_HUGE, N_XFAM };
+static const char* xfam_name[] = {"random", "impulse", "constant", "resonant", "dynrange", "integer50", "scale2^-900", "scale2^+900"};
 
 // table cache: [layout][inverse][native]
 static void* TAB[2][2][2][17];
@@ -83,6 +83,14 @@ static void gen_input(rng_t* r, int fam, uint64_t m, double* re, double* im) {
       for (uint64_t i = 0; i < m; i++) {
         re[i] = (double)rng_sbits(r, 50);
         im[i] = (double)rng_sbits(r, 50);
+      }
+      break;
+    case X_TINY:
+    case X_HUGE:
+      // far from overflow/underflow of the transform itself (m * 2^900 < 2^1000; 2^-900 >> denormals)
+      for (uint64_t i = 0; i < m; i++) {
+        re[i] = ldexp(rng_unit(r) * 2 - 1, fam == X_TINY ? -900 : 900);
+        im[i] = ldexp(rng_unit(r) * 2 - 1, fam == X_TINY ? -900 : 900);
       }
       break;
     default:
